@@ -80,6 +80,12 @@ W = [
     dict(id='object-text-order', commit='f3ac142', props=['C13', 'C05'], query='* | json | concat(o, "|", arr) as s | fields s',
          input='{"o":{"e":5,"a":1,"d":{"q":1,"p":"t"},"c":3,"b":[{"z":1,"x":null},"s"]}, "arr":[{"b":1,"a":2}]}\n', args=['-o', 'logfmt'],
          stdout='s={"a": Int(1), "b": Array([Obj({"x": None, "z": Int(1)}), Str("s")]), "c": Int(3), "d": Obj({"p": Str("t"), "q": Int(1)}), "e": Int(5)}|[Obj({"a": Int(2), "b": Int(1)})]\n'),
+    dict(id='star-or', commit='291b1f9', props=['C02', 'C04'], query='* OR foo | count', input='foo\nbar\n', stdout='[{"_count":2}]\n'),
+    dict(id='not-star', commit='291b1f9', props=['C02'], query='NOT * | count', input='foo\nbar\n', args=['-o', 'json'], stdout='[]\n'),
+    dict(id='width-divisor', commit='b76788c', props=['C11', 'C19'], query='* | json | sum(s), sum(t), p50(w)', input='{"w":1e300,"s":"  12 ","t":"-1,000.5"}\n', args=[], rc=0),
+    dict(id='num-exact', commit='43e6167', props=['C08'], query='* | json | num(z) as a | abs(z) as b | num(t) as c | fields a, b, c', input='{"z":9007199254740993,"t":" 9007199254740993 "}\n',
+         json_lines=[{'a': 9007199254740993, 'b': 9007199254740993, 'c': 9007199254740993}]),
+    dict(id='backslash-quote', commit='34af2a5', props=['C02', 'C07'], query='* | parse "a\\\\\\"b*" as x', input='a\\"bX\na"bY\n', json_lines=[{'x': 'X'}]),
 ]
 
 
